@@ -9,10 +9,12 @@ let int_of_width = function W1 -> 1 | W2 -> 2 | W4 -> 4 | W8 -> 8
 let quiet32 (u : int) : int =
   if u land 0x7f800000 = 0x7f800000 && u land 0x007fffff <> 0 then u lor 0x00400000 else u
 
+let hextab = Array.init 256 (fun i -> Printf.sprintf "%02x" i)
+
 let rec show (b : Buffer.t) (x : item) : unit =
   if Buffer.length b > 0 then Buffer.add_char b ' ';
   let join f l = List.iteri (fun i v -> if i > 0 then Buffer.add_char b ','; Buffer.add_string b (f v)) l in
-  let hex l = List.iter (fun v -> Buffer.add_string b (Printf.sprintf "%02x" (int_of_z v))) l in
+  let hex l = List.iter (fun v -> Buffer.add_string b hextab.(int_of_z v)) l in
   match x with
   | IEmpty -> Buffer.add_string b "E"
   | IList cs -> Buffer.add_string b (Printf.sprintf "L%d" (List.length cs)); List.iter (show b) cs
